@@ -3,6 +3,8 @@ package h
 import (
 	"errors"
 	"fmt"
+	"sync/atomic"
+	"time"
 
 	"github.com/truora/minidyn/interpreter"
 )
@@ -60,10 +62,42 @@ type Prim interface {
 // ClientIDs are the client instances every back end keeps.
 var ClientIDs = []string{"c1", "c2"}
 
+// HangTimeout is how long one call of the real client may take before it is recorded as hanging (a leaked lock, a loop).
+// Calls take microseconds; the bound is generous so that a loaded machine cannot cause it.
+var HangTimeout = 30 * time.Second
+
+// hangState is embedded in a back end. hung is set when a call did not return: the goroutine (and any lock it holds) is lost, so the
+// remaining calls of the trace to THAT back end are answered "crash" at once instead of waiting HangTimeout each; Reset (new
+// clients) clears it.
+type hangState struct{ hung atomic.Bool }
+
+func (h *hangState) resetHang() { h.hung.Store(false) }
+
 // guard runs one call, turning a panic into a response: the library's documented panic (a panic whose
 // value wraps the interpreter's syntax / unsupported errors, core/table.go interpreterMatch) is class
-// "panic_syntax"; any other panic is "crash".
-func guard(f func() *Resp) (r *Resp) {
+// "panic_syntax"; any other panic is "crash"; a call that does not return within HangTimeout is "crash" too.
+func (h *hangState) guard(f func() *Resp) *Resp {
+	if h.hung.Load() {
+		r := NewResp()
+		r.Err = "crash"
+		r.Msg = "not attempted: an earlier call of this trace never returned"
+		return r
+	}
+	done := make(chan *Resp, 1)
+	go func() { done <- guarded(f) }()
+	select {
+	case r := <-done:
+		return r
+	case <-time.After(HangTimeout):
+		h.hung.Store(true)
+		r := NewResp()
+		r.Err = "crash"
+		r.Msg = fmt.Sprintf("the call did not return within %s", HangTimeout)
+		return r
+	}
+}
+
+func guarded(f func() *Resp) (r *Resp) {
 	defer func() {
 		if p := recover(); p != nil {
 			r = NewResp()
